@@ -74,7 +74,8 @@ fn oracle(c: &Case, st: &mut Stats) -> Result<(), String> {
     };
     let ln = prog::layers_name(res.layers);
     // ---- destination schedule
-    let sink = ThrottledWriter::new(c.wsched.clone(), c.interrupt_every as u32);
+    // the same program gave `plain.bytes` in memory: far more than that at the destination means the writer repeats itself
+    let sink = ThrottledWriter::new(c.wsched.clone(), c.interrupt_every as u32).with_limit(4 * plain.bytes.len() + (1 << 16));
     let thr = match util::catch(|| prog::build_into(&res, &keys.publics, sink)) {
         Ok(Ok((s, _))) => s,
         Ok(Err(e)) => return Err(format!("{ln}: writing to a sink accepting {:?} bytes per call (Interrupted every {}) failed: {e}", c.wsched, c.interrupt_every)),
